@@ -235,7 +235,7 @@ PROPS["C04"] = {
     "thorough": {"budget_s": 300},
     "floors": {
         "quick": {"opened.Strict": 8000, "opened.Permissive": 8000, "layout.red_nodes": 5000, "layout.dir_gaps": 5000, "layout.fragmented_chain": 3000,
-                  "layout.out_of_order_fat": 5000, "layout.free_sectors_inside": 2000, "layout.difat_chain": 8, "mutated_afterwards": 8000, "layout.spare_fat_sectors": 1500, "layout.dirty_slack_and_free_sectors": 1500, "spare_fat_filled_past_coverage": 800, "layout.partial_final_sector": 60, "spare_difat_grown_and_reopened": 1, "sparse_foreign.scenarios_passed": 2, "sparse_foreign.modified_and_reopened": 2},
+                  "layout.out_of_order_fat": 5000, "layout.free_sectors_inside": 2000, "layout.difat_chain": 8, "mutated_afterwards": 8000, "layout.spare_fat_sectors": 1500, "layout.dirty_slack_and_free_sectors": 1500, "spare_fat_filled_past_coverage": 800, "layout.partial_final_sector": 15, "spare_difat_grown_and_reopened": 1, "sparse_foreign.scenarios_passed": 2, "sparse_foreign.modified_and_reopened": 2},
         "thorough": {"opened.Strict": 100000, "layout.difat_chain": 50, "sparse_foreign.scenarios_passed": 2},
     },
 }
